@@ -98,7 +98,7 @@ def rand_flat(rnd, depth):
     return {'k': 'chain', 'operands': operands, 'ops': [rnd.choice(OPS) for _ in range(n)]}
 
 
-TOKENS = [('num', ['1', '2.5', '10']), ('str', ["'s'", '"t"']), ('var', ['xx', 'yy', 'ff']),
+TOKENS = [('num', ['1', '2.5', '10']), ('str', ["'s'", '"t"']), ('var', ['xx', 'yy', 'ff', 'e5', 'e2', 'E3']),
           ('op', ['*', '+', '==', '&&', '<', '**', '||', '%']), ('not', ['!']), ('minus', ['-']), ('lp', ['(']), ('rp', [')']),
           ('comma', [','])]
 
@@ -155,4 +155,10 @@ def rand_tokens(rnd):
 
 
 def tokens_text(toks, rnd):
-    return ' '.join(t['text'] for t in toks)
+    """single blanks between tokens - except that a name may follow a number directly (it still is a separate token: "1e5" is
+    the number 1 and the name e5, two operands without an operator, not a number with an exponent)"""
+    out = ''
+    for i, t in enumerate(toks):
+        glue = i > 0 and toks[i - 1]['t'] == 'num' and t['t'] == 'var' and rnd is not None and rnd.random() < 0.6
+        out += ('' if i == 0 or glue else ' ') + t['text']
+    return out
